@@ -19,11 +19,13 @@ def universes(tier, seed):
         out.append((f"MAA3[{seed % 512}/512]", [("idx", 3, i) for i in U.shard(U.catalogue("maa"), seed, 512)], 1))
         out.append((f"MAA3[{seed % 2048}/2048]+input", [("u", ("idx", 3, i), ("idx", 1, 2)) for i in U.shard(U.catalogue("maa"), seed, 2048)], 0))
     else:
-        out = [("U2", [("idx", 2, i) for i in range(256)], 3), ("K", [("k", k) for k in U.kernel()], 3)]
-        out.append(("F3c", [("idx", 3, i) for i in U.F3_indices(True)], 1))
-        out.append((f"F3c[{seed % 8}/8]", [("idx", 3, i) for i in U.shard(U.F3_indices(True), seed, 8)], 2))
-        out.append(("MULTI3", [("idx", 3, i) for i in U.catalogue("multi")], 2))
-        out.append((f"MAA3[{seed % 8}/8]", [("idx", 3, i) for i in U.shard(U.catalogue("maa"), seed, 8)], 1))
+        out = [("U2", [("idx", 2, i) for i in range(256)], 3), ("K", [("k", k) for k, n in U.kernel().items() if len(n.sd[0]) <= 5], 3),
+               ("K(large)", [("k", k) for k, n in U.kernel().items() if len(n.sd[0]) > 5], 2)]
+        out.append((f"F3c[{seed % 2}/2]", [("idx", 3, i) for i in U.shard(U.F3_indices(True), seed, 2)], 1))
+        out.append((f"F3c[{seed % 64}/64]", [("idx", 3, i) for i in U.shard(U.F3_indices(True), seed, 64)], 2))
+        out.append(("MULTI3", [("idx", 3, i) for i in U.catalogue("multi")], 1))
+        out.append((f"MULTI3[{seed % 8}/8]", [("idx", 3, i) for i in U.shard(U.catalogue("multi"), seed, 8)], 2))
+        out.append((f"MAA3[{seed % 64}/64]", [("idx", 3, i) for i in U.shard(U.catalogue("maa"), seed, 64)], 1))
         out.append((f"MAA3[{seed % 64}/64]+input", [("u", ("idx", 3, i), ("idx", 1, 2)) for i in U.shard(U.catalogue("maa"), seed, 64)], 1))
     return out
 
